@@ -1,0 +1,49 @@
+//go:build verif
+
+// Contracts for package concurrencylimiter, read by /verif/engine (govc). Comment-only.
+package concurrencylimiter
+
+// Operation-level token accounting (status: 0 acquired, 1 blocked, 2 released). A holder has a token in the
+// limiter channel iff its status is acquired; sent / recvd count the sends to and receives from the limiter channel
+// that this operation performs. Each operation is treated as one step; the interleavings below that granularity
+// (e.g. a release that lands between block's compare-and-swap and its send) are not decided here.
+
+// release: idempotent; gives the token back exactly when the holder had one; from blocked it only marks.
+//@ func holder.release
+//@   requires h != nil && h.l != nil
+//@   ghost recvd int
+//@   entry ghost recvd = 0
+//@   call recv assert arg0 == h.l.ch
+//@   call recv ghost recvd = recvd + 1
+//@   ensures h.status == 2
+//@   ensures recvd == ite(old(h.status) == 0, 1, 0)
+
+// the deferred re-acquire of block: takes the token back iff the holder is still blocked.
+//@ func holder.block$1
+//@   requires deref(h) != nil && deref(h).l != nil
+//@   assigns holder
+//@   ghost sent int
+//@   entry ghost sent = 0
+//@   call send assert arg1 == deref(h).l.ch
+//@   call send ghost sent = sent + 1
+//@   ensures old(deref(h).status) == 1 ==> deref(h).status == 0 && sent == 1
+//@   ensures old(deref(h).status) != 1 ==> deref(h).status == old(deref(h).status) && sent == 0
+//@   ensures deref(h) == old(deref(h)) && deref(h).l == old(deref(h).l)
+
+// block: gives the token up while f runs iff the holder had one; afterwards the holder has a token again iff it was
+// not released in the meantime. Rely (from the contracts of release and block above): while this holder is blocked,
+// other operations on it can only mark it released and do not touch the channel on its behalf.
+//@ func holder.block
+//@   requires h != nil && h.l != nil
+//@   keeps limiter
+//@   ghost sent int
+//@   ghost recvd int
+//@   entry ghost sent = 0
+//@   entry ghost recvd = 0
+//@   call recv assert arg0 == h.l.ch
+//@   call recv ghost recvd = recvd + 1
+//@   call dynamic assume h.l == old(h.l) && (recvd == 1 ==> (h.status == 1 || h.status == 2)) && (recvd == 0 ==> h.status == old(h.status))
+//@   call holder.block$1 ghost sent = sent + callee_sent
+//@   ensures recvd == ite(old(h.status) == 0, 1, 0)
+//@   ensures old(h.status) != 0 ==> sent == 0 && h.status == old(h.status)
+//@   ensures old(h.status) == 0 ==> sent <= 1 && (sent == 1 <==> h.status == 0) && (h.status == 0 || h.status == 2)
